@@ -352,3 +352,41 @@ def c16(res):
                 "which something has been handed over")
     res.extra["exhaustive"] = True
     shutil.rmtree(wd, ignore_errors=True)
+
+
+def c04(res):
+    """C04 = value level (Identity.tla) + all reachable states of actor systems (stream injective, real counts) + vector clocks."""
+    wd = workdir("C04v-%s" % res.tier)
+    rp, op = os.path.join(wd, "identity.ndjson"), os.path.join(wd, "identity.json")
+    run_vh(["algebra", "--out", rp, "--what", "identity"], timeout=600)
+    r = run_tlc("Identity.tla", "cfg/empty.cfg", env=dict(RECS=rp, OUT=op), timeout=1200, name="identity", heap="6g")
+    if not r["ok"]:
+        raise ToolError("Identity judge failed: " + r["out"][-2000:])
+    o = json.load(open(op))
+    recs = read_ndjson(rp)
+    nvals = 0
+    for c in o["cats"]:
+        nvals += c["v"]["values"]
+        if c["v"]["split"]:
+            res.violation("equal_values_hash_differently/%s" % c["cat"], dict(check="never_split", category=c["cat"],
+                          examples=[x for x in recs if x["cat"] == c["cat"]][:40]))
+        if c["v"]["merge"]:
+            res.violation("distinct_values_hash_equally/%s" % c["cat"], dict(check="never_merge", category=c["cat"],
+                          examples=[x for x in recs if x["cat"] == c["cat"]][:40]))
+    res.traces += len(recs)
+    res.evaluations += len(recs)
+    res.nontrivial += nvals
+    res.notes.append("value level: %d abstract values in %d categories, %d concrete constructions; stream is an injective function of the value" % (
+        nvals, len(o["cats"]), len(recs)))
+    res.samples.append(recs[len(recs) // 2])
+    # vector clocks: hash stream equal iff equal up to trailing zeros (single clocks)
+    import fam_algebra
+    fam_algebra.run_algebra(res, wd, "vc", 3, 2, ["hash_eq", "hash_ne", "eq"], label="vector clocks: stream equal iff equal up to trailing zeros")
+    shutil.rmtree(wd, ignore_errors=True)
+    c04_actor_leg(res)
+    res.rule = ("value level: every abstract value of the container categories (adjacent sets / vectors of sets and timer sets / "
+                "adjacent maps / sets of sets, maps to sets, sets as map keys / adjacent vector clocks / three network kinds incl. "
+                "last_msg and multiplicities) built in 2-3 concrete ways; TLC judges that the recorded hasher byte stream is an "
+                "injective function of the value. state level: every reachable state of generated actor systems (crash flags, "
+                "random choices, timers, networks, histories): streams injective on abstract states and unique_state_count() of "
+                "real BFS/DFS = number of distinct states = TLC's own count")
